@@ -3,6 +3,7 @@ mod entropy;
 mod faults;
 mod gen;
 mod lint;
+mod lspreader;
 mod minimise;
 mod props;
 mod reader;
@@ -122,6 +123,32 @@ fn main() {
                 for seed in [1u64, 2, 3, 1, 2, 3] {
                     println!("round {round} seed {seed}: {:?}", probe(seed));
                 }
+            }
+        }
+        "debug-passes" => {
+            // run the pipeline of a single file up to the first exit cut, then watch the next value
+            // analysis sweep by sweep (each k in its own incarnation: same UUIDs, same hash order)
+            use riscv_analysis::passes::GenerationPass;
+            let Some(f) = args.get(1) else { usage() };
+            let text = std::fs::read_to_string(f).unwrap_or_default();
+            for k in 1..14u64 {
+                let text = text.clone();
+                let out = entropy::incarnation(1, move || {
+                    let (nodes, _) = riscv_analysis::parser::RVStringParser::parse_from_text(&text);
+                    let mut cfg = riscv_analysis::cfg::Cfg::new(nodes).unwrap();
+                    riscv_analysis::gen::NodeDirectionPass::run(&mut cfg).unwrap();
+                    riscv_analysis::gen::EliminateDeadCodeDirectionsPass::run(&mut cfg).unwrap();
+                    riscv_analysis::analysis::AvailableValuePass::run(&mut cfg).unwrap();
+                    let cut = riscv_analysis::gen::EcallTerminationPass::terminate(&mut cfg);
+                    riscv_analysis::verif::set_budget(k);
+                    let _ = riscv_analysis::verif::take_counts();
+                    let r = std::panic::catch_unwind(std::panic::AssertUnwindSafe(|| {
+                        let _ = riscv_analysis::analysis::AvailableValuePass::run(&mut cfg);
+                    }));
+                    let facts: Vec<String> = cfg.nodes().iter().map(|n| format!("{}", n.reg_values_in())).collect();
+                    format!("cut={cut} converged={} in: {}", r.is_ok(), facts.join(" | "))
+                });
+                println!("k={k}: {}", out.result.unwrap_or_else(|p| p.message));
             }
         }
         "determinism" => {
